@@ -249,12 +249,20 @@ def check_once(prog: Program, res: Result) -> None:
     fn = fi.node
     cfg = CFG(fn)
     rets = [n for n in walk_function(fn) if isinstance(n, ast.Return) and n.value is not None]
-    res.ob("C09-once", len(rets) == 1 and isinstance(rets[0].value, ast.Name), fi.qualname, "single return of the output list",
-           "track() does not return a single output list", fi.where)
-    if not rets or not isinstance(rets[0].value, ast.Name):
+    res.ob("C09-once", 1 <= len(rets) <= 2 and all(isinstance(r.value, ast.Name) for r in rets), fi.qualname, "every return yields an output list",
+           "track() does not return its output list(s) by name", fi.where)
+    if not rets or not all(isinstance(r.value, ast.Name) for r in rets):
         return
+    outs = {r.value.id for r in rets}
+    res.ob("C09-once", len(outs) == 1, fi.qualname, "one output list name", f"returns {sorted(outs)}", fi.where)
     out = rets[0].value.id
     appends = [c for c in astq.method_calls(fn, "append") if isinstance(c.func.value, ast.Name) and c.func.value.id == out]
+    # with one return per branch, each return is reached by exactly one of the append loops
+    if len(rets) == 2:
+        for r in rets:
+            rn = set(cfg.stmt_nodes_containing(r))
+            reach = [c for c in appends if cfg.reachable_from(cfg.stmt_nodes_containing(c)) & rn]
+            res.ob("C09-once", len(reach) == 1, fi.qualname, "each return is fed by one emitting loop", f"{len(reach)} emitting loops reach `{short(r, 40)}`", f"{fi.module.relpath}:{r.lineno}")
     others = [c for n in walk_function(fn) if isinstance(n, ast.Call) and isinstance(n.func, ast.Attribute)
               and isinstance(n.func.value, ast.Name) and n.func.value.id == out and n.func.attr not in ("append",) for c in [n]]
     res.ob("C09-once", not others, fi.qualname, "output list only appended to", f"the output list is modified by {[short(o, 30) for o in others]}", fi.where)
